@@ -53,7 +53,7 @@ func rollLog(fr *frame, fn *ssa.Function, args []value) (value, bool) {
 		fr.i.noteSharedWrite(fr, g)
 	}
 	// pin the generator output so that native replay rolls the same face
-	px.assume(px.ar.Eq(t, px.ar.Const(64, uint64(face-1))))
+	px.pinFresh(t, uint64(face-1))
 	return face, true
 }
 
